@@ -93,12 +93,14 @@ def t_dangling(b):
 
 def t_unguarded_twice(b):
     files = {
-        "/r/main.c": ['#include "u.h"', '#include "u.h"', "#ifndef X", "#include <sys.h>", "#endif", "@"],
+        "/r/main.c": ['#include "u.h"', '#include "u.h"', "#ifndef X", "#include <sys.h>", "#endif", "@", "#include GONE", "@"],
         "/r/u.h": ['#include "gone.h"', "@", "#ifdef SECOND", "#include <gone2.h>", "#endif", "#define SECOND"],
         "/r/inc/sys.h": ["#define X", "@"],
     }
     fs = scen.build_fs(files, maybe={"/r/inc/sys.h": b[0]})
-    conf = {"p": [scen.entry("/r/main.c", ["X"] if b[1] else [], ["/r/inc"] if b[2] else [])]}
+    # a computed include that resolves to no file: the form (user/system) is the one the expansion has
+    gone = 'GONE=<sub/nowhere.h>' if b[1] else 'GONE="sub/nowhere.h"'
+    conf = {"p": [scen.entry("/r/main.c", (["X"] if b[1] else []) + [gone], ["/r/inc"] if b[2] else [])]}
     return fs, conf, list(files)
 
 
@@ -286,7 +288,8 @@ def h_agg(nu: int, ns: int, no: int, ni: int) -> bool:
         return False
     msgs = []
     for k in range(nu):
-        msgs.append(_Rec(logging.WARNING, "/r/a.c:%d: user include 'x%d.h' not found\n    1 | #include \"x.h\"" % (k + 1, k)))
+        # the same event may be reported several times with an identical text: every record counts
+        msgs.append(_Rec(logging.WARNING, "/r/a.c:%d: user include 'x%d.h' not found\n    1 | #include \"x.h\"" % (1, 0)))
     for k in range(ns):
         msgs.append(_Rec(logging.WARNING, "/r/a.c:%d: system include 'y%d.h' not found\n    1 | #include <y.h>" % (k + 1, k)))
     for k in range(no):
